@@ -428,7 +428,7 @@ def run(ctx):
                 viol.append(("chunk boundaries differ from the declarative specification `cuts`", c, res + " vs cuts " + str(cuts[:20]), bld, None))
             groups.setdefault(key, set()).add(" ".join(map(str, lens)))
             if len(lens) >= 2: nontriv.add(c["group"])
-            if bld == "debug" and mn >= 64 and (c["line"].endswith("c1") or c.get("badpoly")) and len(fpq) < (4000 if thorough else 500):
+            if bld == "debug" and mn >= 64 and (c.get("badpoly") or (c["line"].endswith("c1") and len(fpq) < (4000 if thorough else 500))):
                 # cut points vs. the Rabin fingerprint (extracted fp_direct): every boundary that is neither
                 # at max nor the end of the stream, and the position just before it
                 d, off = c["data"], 0
